@@ -15,7 +15,7 @@
    on the implementation by harness/c03 on every run. *)
 From Coq Require Import ZArith List String Bool Permutation.
 From GSP Require Import Base.Prelude Value.Time Value.Model Value.Theory
-                        RDF.Model RDF.OrdSort RDF.Order RDF.OrdTree
+                        RDF.Model RDF.OrdSort RDF.Order RDF.OrdTree RDF.OrdSpell
                         SMT.Model SMT.Theory SMT.Sound.
 Import ListNotations.
 Open Scope Z_scope.
@@ -129,6 +129,15 @@ Theorem C03_given_tree :
 Proof. exact merklize_given_tree. Qed.
 Print Assumptions C03_given_tree.
 
+(* ... and the DEPTH (maxLevels) of a provided tree only decides whether merklization
+   succeeds, never the tree that is built: whenever two depths both succeed, same tree *)
+Theorem C03_tree_depth :
+  forall (H : hasher) (m1 m2 : nat) (q : Z) (F : floats) (mt : option tree) (ds : dataset)
+         (t1 t2 : tree),
+  merklize_tree H m1 q F mt ds = Ok t1 -> merklize_tree H m2 q F mt ds = Ok t2 -> t1 = t2.
+Proof. exact merklize_depth_indep. Qed.
+Print Assumptions C03_tree_depth.
+
 (* (b) converse.  Two entry lists equal except for the value of ONE entry, whose encodings
    (mkValueMtEntry) differ as tree values: the roots differ, or an explicit hash Collision
    is exhibited (SMT/Sound.v: Collision carries the witness; nothing is assumed of hl hm). *)
@@ -161,3 +170,17 @@ Theorem C03_value_binding_int :
   root hl hm t1 <> root hl hm t2 \/ Collision hl hm.
 Proof. exact entry_value_binding_int. Qed.
 Print Assumptions C03_value_binding_int.
+
+(* (c), the part of "equivalent number spellings" that is this repository's code:
+   EntriesFromRDF reads lexical forms only through convertStringToXSDValue.  Respelling the
+   literals by ANY f that preserves the conversion result ("5" -> "05", "5.0", "5e0"; "true"
+   -> "1"; another zone offset), every quad keeping its place, leaves the entries (hence the
+   root) unchanged.  (What json-gold does to the ORDER of the quads when a lexical form
+   changes is outside the model: known findings D21.) *)
+Theorem C03_spelling_dataset :
+  forall (f : string -> string -> string) (F : floats) (prime : Z),
+  (forall dt v, convert F dt (f dt v) prime = convert F dt v prime) ->
+  forall ds : dataset,
+  entries_from_rdf F prime (relit_ds f ds) = entries_from_rdf F prime ds.
+Proof. exact spelling_invariance. Qed.
+Print Assumptions C03_spelling_dataset.
